@@ -140,6 +140,14 @@ func checkCLI(c cliCase) (kind string, msg string) {
 	if !wantFail && status != 0 {
 		return "exit", fmt.Sprintf("tsh exited %d for a valid invocation: %s", status, clip(outb.String()))
 	}
+	// the input file itself is never modified, wherever it lies
+	if c.In != "" {
+		if v, ok := before[c.In]; ok {
+			if nv, ok2 := after[c.In]; !ok2 || nv != v {
+				return "input-modified", fmt.Sprintf("the input file %s was changed or removed by tsh", c.In)
+			}
+		}
+	}
 	// the input tree is never modified
 	for k, v := range before {
 		if c.Out != "" && (k == c.Out+"/" || strings.HasPrefix(k, c.Out+"/")) {
@@ -239,8 +247,8 @@ func init() {
 
 func TestC19(t *testing.T) {
 	r, e := start(t, "C19",
-		"invocations of the tsh binary built from the current tree: the -i/--in, -o/--out, -t/--type pairs in every order and spelling, 1-4 targets in any order with repetitions, input names (a.tsh, a.b.c.tsh, noext, 'sp ace.tsh', .hidden.tsh, one-character x, -.tsh, a.tsh.tsh, directories with dots), accepted programs (incl. imports relative to the input and std beside the binary) and rejected ones (lexical, syntax, type errors, missing import), bad invocations (unknown switch/target, missing -i/-o/-t, missing value, missing input, input is a directory, output missing / a file), output directory pre-populated with decoys and stale outputs. Oracle: exit status; every requested target's file holds exactly the bytes the library returns in process; nothing else in the tree changes; on failure the failing target's file is untouched. Non-trivial = two or more targets, a repeated target, an unusual file name or a failing run; distinct by invocation + sources.",
-		[]string{"targets converted successfully before a failing target may already have been written (the statement only speaks about the failing target)", "stray trailing arguments are not asserted"})
+		"invocations of the tsh binary built from the current tree: the -i/--in, -o/--out, -t/--type pairs in every order and spelling, 1-4 targets in any order with repetitions, input names (a.tsh, a.b.c.tsh, noext, 'sp ace.tsh', .hidden.tsh, one-character x, -.tsh, a.tsh.tsh, directories with dots), accepted programs (incl. imports relative to the input and std beside the binary) and rejected ones (lexical, syntax, type errors, missing import), bad invocations (unknown switch/target, missing -i/-o/-t, missing value, a surplus last argument, missing input, input is a directory, output missing / a file, the target file's name taken by a directory, the input lying in the output directory under the name of its own output), output directory pre-populated with decoys and stale outputs. Oracle: exit status; every requested target's file holds exactly the bytes the library returns in process; nothing else in the tree changes; on failure the failing target's file is untouched. Non-trivial = two or more targets, a repeated target, an unusual file name or a failing run; distinct by invocation + sources.",
+		[]string{"targets converted successfully before a failing target may already have been written (the statement only speaks about the failing target)"})
 	defer r.Flush()
 	_ = e
 	gcfg := gen.Cfg{MaxStmts: 10, MaxDepth: 2, ExprDepth: 2, Funcs: true, MaxFuncs: 2, Slices: true, StrOps: true, LoopBudget: 4, IO: true, Panics: true, ErrSpell: true, BareExpr: true}
@@ -304,7 +312,10 @@ func TestC19(t *testing.T) {
 		}
 		// bad invocations
 		if gen.Uniform(0, 5).Draw(t, "bad-invocation") == 0 {
-			c.Bad = []string{"unknown-switch", "unknown-target", "no-in", "no-out", "no-type", "missing-value", "in-missing", "in-is-dir", "out-missing", "out-is-file"}[gen.Uniform(0, 9).Draw(t, "bad-kind")]
+			c.Bad = []string{"unknown-switch", "unknown-target", "no-in", "no-out", "no-type", "missing-value", "in-missing", "in-is-dir", "out-missing", "out-is-file", "trailing-argument", "target-is-directory", "output-is-input"}[gen.Uniform(0, 12).Draw(t, "bad-kind")]
+			if c.Note == "rejected-program" && (c.Bad == "target-is-directory" || c.Bad == "output-is-input") {
+				c.Bad = "trailing-argument" // those two need a program that would otherwise be written
+			}
 			drop := func(sw ...string) {
 				o2 := [][]string{}
 				for _, p := range ordered {
@@ -334,6 +345,22 @@ func TestC19(t *testing.T) {
 			case "missing-value":
 				drop("-t", "--type")
 				ordered = append(ordered, []string{"-t"})
+			case "trailing-argument":
+				// one argument too many at the very end: a value without option, or an option without value
+				ordered = append(ordered, []string{[]string{"junk", "-x", "-t", "--out"}[gen.Uniform(0, 3).Draw(t, "trailing")]})
+			case "target-is-directory":
+				// the file of the FIRST requested target cannot be written: a directory has its name
+				c.PreDirs = append(c.PreDirs, base+"."+extOf[c.Targets[0]])
+				delete(c.Pre, base+"."+extOf[c.Targets[0]])
+			case "output-is-input":
+				// the input is called like the output of the first target and lies in the output directory
+				src := c.Files[c.In]
+				delete(c.Files, c.In)
+				c.In = filepath.Join(c.Out, "q."+extOf[c.Targets[0]])
+				c.Pre = map[string]string{"q." + extOf[c.Targets[0]]: src}
+				if c.Note == "imports" {
+					c.Pre["lib/helper.tsh"] = c14Helper
+				}
 			case "in-missing":
 				delete(c.Files, c.In)
 				c.Files["other.txt"] = "x"
